@@ -206,7 +206,7 @@ def loop_spec(invariant, havoc):
             for n in _ast.walk(b):
                 if isinstance(n, _ast.Attribute) and isinstance(n.ctx, _ast.Store):
                     raise Undecided(f"loop contract of {clo.qualname}: loop stores to attribute {_ast.unparse(n)}")
-                if isinstance(n, (_ast.Return, _ast.Break)):
+                if isinstance(n, _ast.Break):
                     raise Undecided(f"loop contract of {clo.qualname}: loop contains {type(n).__name__}")
         for k, f in enumerate(invariant(it, env)):
             it.oblige(f"loop-invariant.entry.{k}", f, kind="inv")
